@@ -40,8 +40,8 @@ CONSTANTS Emit,      \* TRUE: report failed checks on IOEnv.OUT and go on
 
 Prog == JsonDeserialize(IOEnv.PROG)      \* sequence of [fn, code, starts]
 
-VARIABLES f, mode, sid, pc, d, x, xu, al, viol
-vars == <<f, mode, sid, pc, d, x, xu, al, viol>>
+VARIABLES f, mode, sid, m0, pc, d, x, xu, al, viol
+vars == <<f, mode, sid, m0, pc, d, x, xu, al, viol>>
 
 Code == Prog[f].code
 Ins  == Code[pc]
@@ -49,11 +49,12 @@ Ins  == Code[pc]
 Init ==
   /\ f \in 1..Len(Prog)
   /\ d = 0 /\ x = 0 /\ xu = FALSE /\ al = FALSE /\ viol = ""
-  /\ \/ "fn" \in Modes /\ mode = "fn" /\ sid = -1 /\ pc = 1
+  /\ \/ "fn" \in Modes /\ mode = "fn" /\ sid = -1 /\ m0 = 0 /\ pc = 1
      \/ "st" \in Modes /\ mode = "st"
         /\ \E j \in 1..Len(Prog[f].starts) :
              /\ pc = Prog[f].starts[j] + 1                \* just behind the `# V:stmt+ s` marker
              /\ sid = Prog[f].code[Prog[f].starts[j]].n
+             /\ m0 = Prog[f].code[Prog[f].starts[j]].m           \* the generator's logged depth at the start
 
 (* ---- the checks: each is a predicate of the state about to execute Ins ---- *)
 Check ==
@@ -63,7 +64,7 @@ Check ==
   ELSE IF mode = "fn" /\ d > 0 THEN "rsp-above-frame"
   ELSE IF i.k = "ret" /\ mode = "fn" /\ d # 0 THEN "rsp-residue-at-ret"
   ELSE IF i.k = "ret" /\ mode = "fn" /\ ~xu /\ i.n >= 0 /\ x # i.n THEN "x87-residue-at-ret"
-  ELSE IF i.k \in {"stmt+", "stmt-"} /\ mode = "fn" /\ i.m # -d THEN "logged-depth-differs"
+  ELSE IF i.k \in {"stmt+", "stmt-"} /\ i.m - m0 # -d THEN "logged-depth-differs"
   ELSE IF i.k = "call" /\ mode = "fn" /\ d % 2 # 0 THEN "call-misaligned"
   ELSE IF i.k = "base" /\ i.n % 16 # 0 THEN "frame-misaligned"
   ELSE IF i.k = "stmt-" /\ mode = "st" /\ i.n = sid /\ d # 0 THEN "rsp-residue-at-stmt-end"
@@ -80,18 +81,18 @@ Stop == pc' = 0 /\ UNCHANGED <<d, x, xu, al>>
 
 Step ==
   /\ pc # 0 /\ viol = ""
-  /\ UNCHANGED <<f, mode, sid>>
+  /\ UNCHANGED <<f, mode, sid, m0>>
   /\ IF pc > Len(Code) THEN viol' = "fell-off-the-end" /\ Report("fell-off-the-end") /\ Stop
      ELSE LET i == Ins
               c == Check
           IN IF c # "" THEN viol' = c /\ Report(c) /\ Stop
              ELSE /\ viol' = viol
                   /\ CASE i.k = "d"     -> pc' = pc + 1 /\ d' = d + i.n /\ UNCHANGED <<x, xu, al>>
-                       [] i.k = "x"     -> pc' = pc + 1 /\ x' = x + i.n /\ UNCHANGED <<d, xu, al>>
+                       [] i.k = "x"     -> pc' = pc + 1 /\ x' = (IF xu THEN x ELSE x + i.n) /\ UNCHANGED <<d, xu, al>>
                        [] i.k = "xinit" -> pc' = pc + 1 /\ x' = 0 /\ xu' = FALSE /\ UNCHANGED <<d, al>>
                        [] i.k = "base"  -> pc' = pc + 1 /\ d' = 0 /\ UNCHANGED <<x, xu, al>>
                        [] i.k = "reset" -> pc' = pc + 1 /\ d' = 0 /\ UNCHANGED <<x, xu, al>>
-                       [] i.k = "call"  -> pc' = pc + 1 /\ x' = x + i.n /\ xu' = (xu \/ i.m = 1) /\ UNCHANGED <<d, al>>
+                       [] i.k = "call"  -> pc' = pc + 1 /\ x' = (IF xu \/ i.m = 1 THEN 0 ELSE x + i.n) /\ xu' = (xu \/ i.m = 1) /\ UNCHANGED <<d, al>>
                        [] i.k = "jmp"   -> pc' = i.t[1] /\ UNCHANGED <<d, x, xu, al>>
                        [] i.k = "jcc"   -> pc' \in {i.t[1], pc + 1} /\ UNCHANGED <<d, x, xu, al>>
                        [] i.k = "ijmp"  -> pc' \in {i.t[j] : j \in 1..Len(i.t)} /\ UNCHANGED <<d, x, xu, al>>
